@@ -965,3 +965,33 @@ def octet_fn_table(body, max_steps=400):
             return None
         out.append(res)
     return out
+
+
+def accumulator_of(term):
+    """If `term` is the (new) value of a loop-carried accumulator, the local it accumulates in; else None.
+    Two shapes: the accumulator itself after `acc += x` (a phi of the local), or the sum `acc + x (+ k)`
+    computed first -- in the loop or in a helper that was inlined -- and stored back into `acc` afterwards
+    (one of the phi's alternatives contains that same sum over the local)."""
+    from mirlib import map_term
+    t = deep_strip(term)
+    if t[0] == "phi":
+        return t[1]
+    if t[0] != "bin" or t[1].replace("WithOverflow", "") != "Add":
+        return None
+    leaf = t
+    while leaf[0] == "bin" and leaf[1].replace("WithOverflow", "") == "Add":
+        leaf = deep_strip(leaf[2])
+    if leaf[0] != "phi" or len(leaf) < 3:
+        return None
+    loc = leaf[1]
+
+    def unphi(x):
+        if isinstance(x, tuple) and x and x[0] == "phi" and x[1] == loc:
+            return ("local", loc)
+        return x
+    want = canon_nobb(map_term(t, unphi))
+    for alt in leaf[2]:
+        for sub in walk(alt):
+            if isinstance(sub, tuple) and sub and sub[0] == "bin" and canon_nobb(map_term(sub, unphi)) == want:
+                return loc
+    return None
